@@ -47,8 +47,14 @@ def big_file_case(rng, npipes):
     arrivals = {}
     for j in range(npipes):
         t = j // 3
+        sp = None
         n = rng.choice([1, 2, 3]) if rng.random() < 0.97 else rng.choice([40, 80])
-        if n >= 40:
+        if rng.random() < 0.004:
+            nn = rng.choice([70, 90, 150])
+            par = gen.random_dag(rng, nn, rng.choice(["random", "multi_root", "layers", "random"]))
+            sp = {"pid": f"dag{j}", "prio": rng.choice(gen.PRIOS), "ops": [
+                {"parents": par[k], "segs": [{"cpu": float(k), "law": rng.choice(LAWS), "mem": None, "read": 0.5}]} for k in range(nn)]}
+        elif n >= 40:
             # wide fan-in: one sink with dozens of parents
             ops = [{"parents": [], "segs": [{"cpu": 1, "law": "const", "mem": None, "read": 1}]} for _ in range(n - 1)]
             ops.append({"parents": list(range(n - 1)), "segs": [{"cpu": 2, "law": "sqrt", "mem": 0, "read": 0.5}]})
@@ -113,7 +119,11 @@ def run_case(case, mon):
         w.write_row(row)
     text1 = buf.getvalue()
     # ---- write -> read
-    back = list(CSVWorkloadReader(io.StringIO(text1)).batch_by_pipeline())
+    try:
+        back = list(CSVWorkloadReader(io.StringIO(text1)).batch_by_pipeline())
+    except Exception as e:
+        mon.fail("written-trace-refused", f"the reader refuses the trace the writer just produced: {type(e).__name__}: {e}")
+        return
     if len(back) != len(originals):
         mon.fail("count", f"wrote {len(originals)} pipelines, read {len(back)}")
         return
@@ -137,10 +147,14 @@ def run_case(case, mon):
     # ---- read -> write again: every row but the arrival column is reproduced
     buf2 = io.StringIO()
     w2 = CSVWorkloadWriter(buf2)
-    wl = CSVWorkloadReader(io.StringIO(text1)).get_workload(tps)
-    tg2 = WorkloadTraceGenerator(workload=wl, ticks_per_second=tps, duration_secs=(case["ticks"] + 3) / tps)
-    for row in tg2.generate_rows():
-        w2.write_row(row)
+    try:
+        wl = CSVWorkloadReader(io.StringIO(text1)).get_workload(tps)
+        tg2 = WorkloadTraceGenerator(workload=wl, ticks_per_second=tps, duration_secs=(case["ticks"] + 3) / tps)
+        for row in tg2.generate_rows():
+            w2.write_row(row)
+    except Exception as e:
+        mon.fail("rewrite-raised", f"read -> write of a writer-format trace raised {type(e).__name__}: {e}")
+        return
     r1 = list(csv.DictReader(io.StringIO(text1)))
     r2 = list(csv.DictReader(io.StringIO(buf2.getvalue())))
     if len(r1) != len(r2):
